@@ -5,6 +5,7 @@ import (
 	"go/token"
 	"go/types"
 	"sort"
+	"strconv"
 	"strings"
 
 	"golang.org/x/tools/go/ssa"
@@ -38,6 +39,7 @@ func C11(ctx *core.Ctx, r *core.Report) {
 	c11DeviationCoverage(ctx, r)
 	c11NotSupported(ctx, r)
 	c11DeviateKindsIndependent(ctx, r)
+	c11InitializeMerges(ctx, r)
 }
 
 // originOf: strip clones/conversions: d := orig.clone(target).(Definition) → orig.
@@ -338,6 +340,82 @@ func c11DeviateKindsIndependent(ctx *core.Ctx, r *core.Report) {
 			"deviate "+strings.ToLower(k)+" is looked at only on one side of the test for deviate "+strings.ToLower(dep)+": a deviation that holds both has the second one silently dropped")
 	}
 	r.Floor("deviate-kinds-independent", n, 3)
+}
+
+// c11InitializeMerges: one FeatureSet serves every module of a load and
+// Initialize is called once per module; no successful return of
+// supportedFeatures.Initialize bypasses the step that puts this module's
+// features into the enabled set (the assignment of self.enabled or the loop
+// that merges into it).
+func c11InitializeMerges(ctx *core.Ctx, r *core.Report) {
+	f := ctx.Method("meta", "supportedFeatures", "Initialize")
+	sf := ctx.Named("meta", "supportedFeatures")
+	if f == nil || sf == nil {
+		r.Fatalf("anchor meta.supportedFeatures.Initialize not found")
+		return
+	}
+	st := sf.Underlying().(*types.Struct)
+	idx := -1
+	for i := 0; i < st.NumFields(); i++ {
+		if st.Field(i).Name() == "enabled" {
+			idx = i
+		}
+	}
+	isEnabledAddr := func(v ssa.Value) bool {
+		fa, ok := v.(*ssa.FieldAddr)
+		return ok && fa.Field == idx && core.NamedOf(fa.X.Type()) == sf
+	}
+	merge := map[*ssa.BasicBlock]bool{}
+	core.Instrs(f, func(b *ssa.BasicBlock, in ssa.Instruction) {
+		switch x := in.(type) {
+		case *ssa.Store:
+			if isEnabledAddr(x.Addr) && !core.IsNilConst(x.Val) {
+				merge[b] = true
+			}
+		case *ssa.MapUpdate:
+			if u, ok := x.Map.(*ssa.UnOp); ok && isEnabledAddr(u.X) {
+				merge[b] = true
+				if _, h := innerLoopOf(b); h != nil {
+					merge[h] = true // a merge loop, also when it runs zero times
+				}
+			}
+		}
+	})
+	n := 0
+	for _, ret := range core.Returns(f) {
+		ops := core.RetOperands(ret)
+		if len(ops) == 1 && !core.IsNilConst(ops[0]) {
+			continue // a failure
+		}
+		n++
+		bypass := false
+		seen := map[*ssa.BasicBlock]bool{}
+		var walk func(b *ssa.BasicBlock)
+		walk = func(b *ssa.BasicBlock) {
+			if seen[b] || merge[b] {
+				return
+			}
+			seen[b] = true
+			if b == ret.Block() {
+				bypass = true
+				return
+			}
+			for _, s := range b.Succs {
+				walk(s)
+			}
+		}
+		walk(f.Blocks[0])
+		key := "meta.supportedFeatures.Initialize/return"
+		if n > 1 {
+			key += "#" + strconv.Itoa(n)
+		}
+		r.Ob("initialize-merges-every-module", key, ctx.Pos(ret.Pos()), !bypass,
+			"Initialize can return success without adding this module's features to the enabled set: the features of every module but the first are off, whatever the configuration says")
+	}
+	r.Floor("initialize-merges-every-module", n, 1)
+	if len(merge) == 0 {
+		r.Fatalf("supportedFeatures.Initialize no longer writes the enabled set")
+	}
 }
 
 func c11DeviationCoverage(ctx *core.Ctx, r *core.Report) {
